@@ -54,8 +54,12 @@ def run_all():
         else:
             try:
                 text = fn()
-            except ExtractError as e:
+            except Exception as e:      # shape changed / dumper does not build: never keep a stale file
                 errs.append("%s: %s" % (name, e))
+                try:
+                    os.remove(os.path.join(C.LEAN, "LtVerif", "Extracted", name + ".lean"))
+                except OSError:
+                    pass
                 continue
             cache[name] = text
             dirty = True
